@@ -79,7 +79,8 @@ macro_rules! collect {
     }};
 }
 
-/// source: 0 = slice from_reader, 1 = from_str, 2 = buffered (first piece = `first_piece` bytes)
+/// source: 0 = slice from_reader, 1 = from_str, 2 = buffered (first piece = `first_piece` bytes),
+/// 3 = buffered whose very first refill fails once with a hard I/O error, after which the caller simply calls again
 fn read_all(input: &[u8], source: u8, first_piece: usize) -> Vec<Ev> {
     match source {
         0 => {
@@ -90,11 +91,25 @@ fn read_all(input: &[u8], source: u8, first_piece: usize) -> Vec<Ev> {
             let mut reader = Reader::from_str(std::str::from_utf8(input).unwrap());
             collect!(reader, reader.read_event())
         }
-        _ => {
+        2 => {
             let cuts = if first_piece == 0 { vec![] } else { vec![first_piece, 3, 1, 7, 2, 5, 64] };
             let mut reader = Reader::from_reader(Chunked::new(input, Plan { cuts, ..Default::default() }));
             let mut buf = Vec::new();
             collect!(reader, { buf.clear(); reader.read_event_into(&mut buf) })
+        }
+        _ => {
+            let cuts = if first_piece == 0 { vec![] } else { vec![first_piece, 3, 1, 7, 2, 5, 64] };
+            let mut reader = Reader::from_reader(Chunked::new(input, Plan { cuts, error_at: Some(0), ..Default::default() }));
+            let mut buf = Vec::new();
+            // the failed first call is not an event; what matters is the stream seen by the retrying caller
+            let first = reader.read_event_into(&mut buf).map(|e| e.into_owned());
+            let mut out = match first {
+                Err(quick_xml::Error::Io(_)) => Vec::new(),
+                _ => vec![Ev { k: "NoIoError".into(), bytes: vec![], decoded: None, label: String::new(), enc: String::new() }],
+            };
+            let rest: Vec<Ev> = collect!(reader, { buf.clear(); reader.read_event_into(&mut buf) });
+            out.extend(rest);
+            out
         }
     }
 }
@@ -165,13 +180,13 @@ pub fn record(out: &str, seed: u64, n: usize) -> Value {
                 }
             }
             doc.extend_from_slice(b"<r k=\"v\">t</r>");
-            for source in 0..3u8 {
+            for source in 0..4u8 {
                 if source == 1 && std::str::from_utf8(&doc).is_err() {
                     continue;
                 }
-                for first_piece in if source == 2 { vec![0usize, 4, 9] } else { vec![0] } {
+                for first_piece in if source >= 2 { vec![0usize, 4, 9] } else { vec![0] } {
                     let evs = read_all(&doc, source, first_piece);
-                    let seen = if source == 2 && first_piece != 0 { first_piece.min(doc.len()) } else { doc.len() };
+                    let seen = if source >= 2 && first_piece != 0 { first_piece.min(doc.len()) } else { doc.len() };
                     write_run(&mut f, if source == 1 { "str" } else { "reader" }, &doc[..seen.min(4)], false, &evs, None, None, &mut events);
                     traces += 1;
                     if !ds.is_empty() {
@@ -234,10 +249,10 @@ pub fn record(out: &str, seed: u64, n: usize) -> Value {
                     bytes.insert(at2, 0xFF);
                 }
             }
-            let source = if rng.gen_bool(0.5) { 0 } else { 2 };
-            let first_piece = if source == 2 { [0usize, 4, 5, 40][rng.gen_range(0..4)] } else { 0 };
+            let source = [0u8, 2, 2, 3][rng.gen_range(0..4)];
+            let first_piece = if source >= 2 { [0usize, 4, 5, 40][rng.gen_range(0..4)] } else { 0 };
             let evs = read_all(&bytes, source, first_piece);
-            let seen = if source == 2 && first_piece != 0 { first_piece.min(bytes.len()) } else { bytes.len() };
+            let seen = if source >= 2 && first_piece != 0 { first_piece.min(bytes.len()) } else { bytes.len() };
             write_run(&mut f, "reader", &bytes[..seen.min(4)], malformed, &evs, Some(&orig), if malformed { None } else { Some(&truth) }, &mut events);
             traces += 1;
             nontriv += 1;
